@@ -26,13 +26,13 @@ func buildState(t *rapid.T) (*node.Node, []string) { return buildStateOpt(t, fal
 // buildStateOpt: forPool prefers chains longer than 100 blocks with validator-set changes near the tip, because the gossip
 // validator's range rule only lets commits through once maxHeightPrecommitted exceeds 100 (see DESIGN.md, observation O3).
 func buildStateOpt(t *rapid.T, forPool bool) (*node.Node, []string) {
-	nVal := rapid.IntRange(3, 7).Draw(t, "validators")
+	nVal := rapid.IntRange(3, 9).Draw(t, "validators") // DrawParams picks 1..nVal: the sets include exactly 8 validators (one full bitmap byte)
 	g := node.DrawParams(t, nVal, false, "genesis")
 	// keep at least 3 validators so that strict signer subsets exist
 	for len(g.Idx) < 3 {
 		g = node.DrawParams(t, nVal, false, "genesis")
 	}
-	cfg := node.Config{Genesis: *g, BatchSize: 8}
+	cfg := node.Config{Genesis: *g, BatchSize: 10}
 	n, err := node.New(cfg)
 	if err != nil {
 		t.Fatalf("node: %v", err)
@@ -65,7 +65,7 @@ func buildStateOpt(t *rapid.T, forPool bool) (*node.Node, []string) {
 	for i := 1; i <= length; i++ {
 		sp := node.Spec{Script: node.Script{Salt: uint32(i % 3)}}
 		if changeAt[i] {
-			sp.Script.Next = node.DrawParams(t, 7, false, "chg")
+			sp.Script.Next = node.DrawParams(t, 9, false, "chg")
 			hist = append(hist, fmt.Sprintf("h=%d change -> validators=%v weights=%v precommit=%d cert=%d", i, sp.Script.Next.Idx, sp.Script.Next.Weights, sp.Script.Next.Precommit, sp.Script.Next.Cert))
 		}
 		// occasionally certify part of the chain through a block's aggregate commit
@@ -723,12 +723,12 @@ func TestRegressDuplicateCertify(t *testing.T) {
 // and what the node assembles from it must pass its own verification and be accepted in a block.
 func TestPoolLaggingCertification(t *testing.T) {
 	rapid.Check(t, func(t *rapid.T) {
-		nVal := rapid.IntRange(3, 6).Draw(t, "validators")
+		nVal := rapid.IntRange(3, 9).Draw(t, "validators")
 		g := node.DrawParams(t, nVal, false, "genesis")
 		for len(g.Idx) < 2 {
 			g = node.DrawParams(t, nVal, false, "genesis")
 		}
-		n, err := node.New(node.Config{Genesis: *g, BatchSize: 8})
+		n, err := node.New(node.Config{Genesis: *g, BatchSize: 10})
 		if err != nil {
 			t.Fatalf("node: %v", err)
 		}
@@ -744,7 +744,7 @@ func TestPoolLaggingCertification(t *testing.T) {
 		for i := 0; i < pre; i++ {
 			apply(node.Spec{Script: node.Script{Salt: uint32(i % 3)}})
 		}
-		next := node.DrawParams(t, 7, false, "chg")
+		next := node.DrawParams(t, 9, false, "chg")
 		apply(node.Spec{Script: node.Script{Salt: 9, Next: next}})
 		c := n.Tip().Header.Height // the block authenticating the change; new parameters from c+1
 		hist = append(hist, fmt.Sprintf("genesis validators=%v weights=%v cert=%d; block %d changes to validators=%v weights=%v cert=%d", g.Idx, g.Weights, g.Cert, c, next.Idx, next.Weights, next.Cert))
